@@ -468,6 +468,8 @@ func init() {
 			}
 			// with the default optimizers both operands share one merged select
 			cqs = append(cqs, cq{`a{l="0"} + a`, ""}, cq{`sum(a{l="1"}) / sum(a)`, ""}, cq{`a + on (m) group_left a{l="0"}`, ""})
+			// tied values: which series topk keeps (known finding F12)
+			cqs = append(cqs, cq{`topk(1, a * 0)`, "none"}, cq{`bottomk by (l) (1, clamp_max(a, 1))`, "none"})
 			for _, qo := range cqs {
 				q := qo.q
 				ref := core.RunEngine(&core.Case{Q: q, Data: base, W: w, O: core.Opts{Optimizers: qo.opt, Procs: 2}}, storeFor(&core.Case{Data: base}))
@@ -490,6 +492,9 @@ func init() {
 								return
 							}
 							cs := &core.Case{Q: q, Data: data, W: w, O: core.Opts{Optimizers: qo.opt, Procs: pr}, Note: fmt.Sprintf("n=%d perm=%v junk=%v", n, pm, withJunk)}
+							if strings.Contains(q, "a * 0") || strings.Contains(q, "clamp_max(a, 1)") {
+								cs.Note += " feat:k-tie"
+							}
 							if !c.Progress(cs) {
 								continue
 							}
